@@ -19,9 +19,16 @@ written episodes are oracles measured on the real index (`memEps`), their text /
 Step 7 (several agents on one state): 30 % of the multi-turn histories without a process boundary alternate 2-3 agent ids
 (`turn["agent"]` -> the turn's `ctx.agent_id`): owner scope, reflection ids, snapshot `agent` field and FILE (`state_<agent>.json`)
 follow the turn's agent; store / version / GEL / memory index / T1 cache / T2 stage cache (owner in its key, fix 1b85992) are
-shared.  The orchestrator's turn-level T2 cache (key = version_etag + text: C05's recorded findings `turn:agent`,
-`turn:owner_scope`) is kept OFF in these histories — with it on, agent B is served agent A's hits
-(`C01_compose_agents_needs_orch_cache_off`).  Model: `runTurnsMA` (= `runTurns` when no turn names an agent).
+shared.  The orchestrator's turn-level T2 cache key digests the agent since the fix `C05_turn_key_context` (with the T1 ids, the
+memory index version and — hybrid on — the GEL edges; model: `OrchCtx`): it stays ON in half of these histories and never serves
+one agent's result to another (`C01_compose_agents_scope_cached`).  Model: `runTurnsMA` (= `runTurns` when no turn names an agent).
+Step 8 (the log stream): EVERY line the real turn appends to EVERY log file (t1, t2, gel, scheduler, t3, t3_plan, t3_dialogue, t4,
+apply, t3_reflection, health, turn) is read back from the scratch log directory — as written by the repo's `append_jsonl` with
+`CI=true`, i.e. after `normalize_for_identity` — and compared with `Clem.Compose.emitted` (lean/Clem/Model/ComposeLog.lean):
+emission order across files, key order inside every record, value kinds (int vs float vs null) and floats by bits.  The
+measured `ms*` values of the non-identity streams are oracles (`Clock`, read from the real lines); for the ones the CI
+normalisation zeroes the request carries a junk value (7.25) that must not come through.  The per-stream records the earlier
+comparisons / monitors read are DERIVED from that stream (`_logs_of_emitted`); the driver no longer builds records itself.
 
 A case = a small world (1-3 active graphs with labelled nodes and weighted edges, node ids shared between graphs;
 0-8 episodes of several owners embedded with the repo's deterministic adapter), a validated config (stage caches /
@@ -49,7 +56,10 @@ monitors (Lean, on the REAL turn): link.t1, link.query, link.bundle, link.plan, 
         link.t2stats, and C18's gel.mon monitors c18.canon / bounded / handoff_topk / obs_spec / tick_spec on the real
         state.graph before/after observe and tick;  (Python) records.turn_agent / streams / rollup / apply_version,
         line.budget, cache.hit_justified / size / invalidation, gel.order / handoff / tick_args / maintenance, quality.query,
-        hybrid.handoff / called, records.hybrid, boot.once, memory.append_only / entry_shape / visible, agents.snapshot_files; (Lean, step 5) snap.fields
+        hybrid.handoff / called, records.hybrid, boot.once, memory.append_only / entry_shape / visible, agents.snapshot_files; (Lean, step 8, on the real lines) log.normalized
+        (every line is a fixpoint of the identity normalisation), log.rollup (the turn record restates the stage records of the
+        same turn), log.order (files in stage order, scheduler event right before the early turn record, gel lines between t2
+        and apply), log.t3 (t3 / t3_plan restate the final plan's op kinds, the pre-rag retrieve request, the stashed flag); (Lean, step 5) snap.fields
         (the real body against the real turn's own records + C06's writer on the real state.graph), boot.load (state after the
         real boot hook = `bootOf` of the real body); replay.real_deterministic (the same history replayed
         on a freshly built world gives identical records, lines and state — C01 on the real engine).
@@ -81,20 +91,24 @@ ASSUMPTIONS = [
     "ctx.now is a fixed string; the world (graphs, INITIAL memory episodes, config, agent) does not change during a history; the "
     "memory index grows only through the reflection tail (modelled as state); the snapshot directory holds at most the one "
     "`state_<agent>.json` the history itself wrote (single agent, no delta/compressed snapshots); a process boundary carries "
-    "nothing but that directory.  Multi-agent histories: t4.cache (the orchestrator's turn-level cache) OFF — its key lacks the "
-    "agent (C05 findings turn:agent / turn:owner_scope) — and no process boundary (which `state_*.json` a boot would pick depends "
+    "nothing but that directory.  Multi-agent histories: no process boundary (which `state_*.json` a boot would pick depends "
     "on file mtimes).  In shares of the worlds GEL (graph.enabled: observe on all T2 hits, tick and merge/split/promotion before "
     "Apply; merge_candidates/split_candidates are oracles as in C18), the scheduler (scheduler.enabled with LOGICAL slice budgets: "
     "wall_ms / quantum_ms are huge and the model takes the measured elapsed time as 0 ms), and the T2 rerank layers (hybrid over the "
     "GEL store of the state; fusion with BM25 scores and MMR with token sets as oracles, as in C11) are ON",
-    "hybrid worlds keep the process-global T2 stage cache off (its key ignores the GEL store the reranker reads: C05's finding t2:state)",
+    "fixed tree (C05_t2_key_* / C05_turn_key_context / C09_t2_*): the T2 stage cache key carries the hybrid settings + GEL digest, the "
+    "label map and the memory index identity/version, and the orchestrator's turn-level key digests agent, T1 ids, index version and "
+    "(hybrid on) the GEL edges — the stage cache stays ON in hybrid worlds and the turn-level cache may stay ON in multi-agent worlds",
     "caches ON: no TTL expiry and no capacity eviction inside a history (defaults 300 s / 600 s / 512 entries vs. at most 4 turns); "
     "the process-global T2 stage cache is transparent in such a world (its hit returns what the stage recomputes) and is only "
     "reflected in the record constants cache_enabled / cache_used / cache_misses",
     "the planner hook `clematis.engine.orchestrator.t3_deliberate` (the orchestrator's own indirection) is the only source of "
     "ProposedDeltas: the stock rule-based planner never sets `plan.deltas`; the hook used is `deliberate(bundle)` + appended "
     "EditGraph ops + a generated delta list",
-    "utterances come from the default dialogue template without style prefix; no generated text triggers a rule of `_sanitize_utterance`",
+    "utterances come from the default dialogue template without style prefix; no generated text triggers a rule of `_sanitize_utterance` "
+    "(no t3_filter.jsonl line is ever written)",
+    "log stream: CI=true (the rig's environment); the apply record's snapshot path is compared by basename (the directory is the "
+    "scratch snapshot_dir); `pick_reason` absent (the rig's ctx has none); the scheduler event is written, not driver-captured",
 ]
 TRUSTED = [
     "oracles of the composed turn, measured from the real run and handed to the model keyed by query text: BGEAdapter embeddings and "
@@ -116,6 +130,10 @@ MODELLED = {
     "clematis/engine/snapshot.py": ["write_snapshot", "load_latest_snapshot"],
     "clematis/engine/orchestrator/reflection.py": ["write_reflection_entries", "_normalize_entry"],
     "clematis/memory/index.py": ["InMemoryIndex.add"],
+    "clematis/engine/util/io_logging.py": ["normalize_for_identity"],
+    "clematis/engine/health.py": ["check_and_log"],
+    "clematis/engine/orchestrator/logging.py": ["log_t3_reflection"],
+    "clematis/engine/stages/t3/dialogue.py": ["_top_snippet_ids"],
 }
 
 
@@ -340,13 +358,13 @@ def gen_case(rng: random.Random, i: int, max_turns: int) -> dict:
         cfg["t1"]["cache"] = {"enabled": True}
         # (the T2 stage cache key ignores the GEL store the hybrid reranker reads — C05's finding `t2:state`:
         #  it stays off in worlds where the reranker is on)
-        cfg["t2"]["cache"] = {"enabled": not cfg["t2"].get("hybrid", {}).get("enabled", False)}
+        cfg["t2"]["cache"] = {"enabled": True}   # (hybrid worlds too: fix C05_t2_key_hybrid_gel put the GEL digest into the key)
         cfg["t4"]["cache"] = {"enabled": True}
         cfg["t4"]["cache_bust_mode"] = rng.choice(["none", "on-apply", "on-apply"])
     if refl_visible and rng.random() < 0.6:
         # the T2 stage cache ON while the index grows under repeated query texts: its key carries the index version, so
         # the turn after a write must recompute (and see the new entry) instead of serving the stale list
-        cfg["t2"]["cache"] = {"enabled": not cfg["t2"].get("hybrid", {}).get("enabled", False)}
+        cfg["t2"]["cache"] = {"enabled": True}   # (hybrid worlds too: fix C05_t2_key_hybrid_gel put the GEL digest into the key)
         repeat_p = 0.85
     meta = None
     if rng.random() < 0.6:
@@ -390,13 +408,14 @@ def gen_case(rng: random.Random, i: int, max_turns: int) -> dict:
     if nt >= 2 and rng.random() < 0.5:
         restart_at = rng.randint(1, nt - 1)
     # step 7: several agents alternating on ONE state (owner scopes per turn, per-agent snapshot files, shared store /
-    # version / GEL / memory index / T1 + T2 stage caches).  The orchestrator's turn-level T2 cache is keyed by
-    # (version_etag, text) only — C05's recorded findings `turn:agent` / `turn:owner_scope` — and is kept OFF here.
+    # version / GEL / memory index / T1 + T2 stage caches).  Since the fix `C05_turn_key_context` the orchestrator's
+    # turn-level T2 cache key digests the agent too: the cache may stay ON (it is switched off in half of these worlds).
     if nt >= 2 and restart_at is None and rng.random() < 0.3:
         pool = [agent] + rng.sample([a for a in ["A", "B", "C", "agent"] if a != agent], rng.choice([1, 2]))
         for i, t in enumerate(turns):
             t["agent"] = pool[i % len(pool)] if rng.random() < 0.7 else rng.choice(pool)
-        cfg["t4"]["cache"] = {"enabled": False}
+        if rng.random() < 0.5:
+            cfg["t4"]["cache"] = {"enabled": False}
         for e in eps:
             if e.get("owner") is not None and rng.random() < 0.5:
                 e["owner"] = rng.choice(pool)
@@ -776,6 +795,74 @@ def _retok(vocab: Dict[str, int], case11: dict, eps_req: List[dict]) -> List[dic
     return eps_req
 
 
+JUNK_MS = 7.25   # stands in for the measured values CI normalisation zeroes: the model must not let them through
+
+
+def _raw_emitted(w, run) -> List[list]:
+    """Every line the turn appended to the log files, as written (CI identity normalisation applied by the repo's
+    `append_jsonl`), in EMISSION order: [file name, record].  Records keep their key order (json.loads -> dict order).
+    The apply record's snapshot path is cut to its basename (the directory is the rig's scratch `snapshot_dir`)."""
+    import json, os
+    lines: Dict[str, List[dict]] = {}
+    for p in sorted(w.log_dir.glob("*.jsonl")):
+        lines[p.name[:-6]] = [json.loads(l) for l in p.read_text(encoding="utf-8").splitlines() if l.strip()]
+    out = []
+    for sname, _ in run.emitted:
+        q = lines.get(sname) or []
+        if not q:
+            out.append([sname + ".jsonl", {"__missing_line__": True}])
+            continue
+        d = q.pop(0)
+        if sname == "apply" and isinstance(d.get("snapshot"), str):
+            d["snapshot"] = os.path.basename(d["snapshot"])
+        out.append([sname + ".jsonl", d])
+    for sname, q in lines.items():
+        for d in q:
+            out.append([sname + ".jsonl", dict(d, __unexpected_line__=True)])
+    return out
+
+
+def _clock_of(raw: List[list]) -> dict:
+    """the measured wall-clock values the records of the turn carry (oracles of the log model); the ones the identity
+    normalisation zeroes are not observable: JUNK_MS stands in for them"""
+    ck = {"t1": JUNK_MS, "t2": JUNK_MS, "t4": JUNK_MS, "apply": JUNK_MS, "total": JUNK_MS, "refl": JUNK_MS,
+          "plan": 0.0, "rag": 0.0, "speak": 0.0, "gelObs": 0.0, "gelTick": 0.0, "gelMaint": 0.0, "consumedMs": 0}
+    for f, d in raw:
+        if f == "t3.jsonl":
+            ck["plan"], ck["rag"], ck["speak"] = float(d.get("ms_plan", 0.0)), float(d.get("ms_rag", 0.0)), float(d.get("ms_speak", 0.0))
+        elif f == "gel.jsonl":
+            key = "gelObs" if d.get("event") == "observe_retrieval" else "gelTick" if d.get("event") == "edge_decay" else "gelMaint"
+            ck[key] = float(d.get("ms", 0.0))
+        elif f == "scheduler.jsonl":
+            ck["consumedMs"] = int((d.get("consumed") or {}).get("ms", 0))
+    return {k: (v if k == "consumedMs" else f2b(float(v))) for k, v in ck.items()}
+
+
+def _logs_of_emitted(em: List[list]) -> Dict[str, List[dict]]:
+    """the per-stream canonical records (volatile keys dropped, as the rig's `canon_record` does) of the model's log
+    stream — what the stage-level comparisons and monitors of v1-v7 read"""
+    c06 = importlib.import_module("harness.props.c06")
+    out: Dict[str, List[dict]] = {}
+    for f, wire in em:
+        d = c06.dec(wire)
+        d = {k: v for k, v in d.items() if k not in TR.VOLATILE_KEYS}
+        if f == "scheduler.jsonl" and isinstance(d.get("consumed"), dict):
+            d["consumed"] = {k: v for k, v in d["consumed"].items() if k != "ms"}
+        out.setdefault(f[:-6], []).append(_canon(d))
+    return out
+
+
+def _gel_key_of_snap(g) -> Any:
+    """what the turn-cache key digests of the GEL store: absent / the edge records, order-insensitive"""
+    if g is None:
+        return "absent"
+    return tuple(sorted((e["k"], e["src"], e["dst"], e["w"], e["concept"], str(e["coact"]), str(e["lst"])) for e in g.get("edges", [])))
+
+
+def _gel_key(state) -> Any:
+    return _gel_key_of_snap(_gel_snap(state))
+
+
 def _snap_stat(w):
     p = w.snap_dir / f"state_{w.agent}.json"
     try:
@@ -834,11 +921,13 @@ def run_real(scratch, case: dict) -> dict:
         w.spec["ctx_extra"] = {"_dry_run_until_t4": True} if t.get("dry") else {}
         ver_before = w.state.get("version_etag")
         snap_before = _snap_stat(w)
+        gel_pre = _gel_key(w.state)
         mem_raw_before = _mem_raw(w, len(case["eps"]))
         mem11 = [_mem_c11(e) for e in mem_raw_before]
         with _recorders(rec, t.get("hook"), w):
             run = TR.run_turn(w, t["text"], t["turn_id"])
         snap_now = _snap_written(w, snap_before)
+        raw_log = _raw_emitted(w, run)
         gel_raw = None
         if snap_now is not None and w.state.get("graph") is not None:
             try:
@@ -879,6 +968,11 @@ def run_real(scratch, case: dict) -> dict:
             "verBefore": ver_before if rec["boot"] is None else rec["boot"]["version"], "rec": rec,
             "storeW": [[list(k), f2b(float(v))] for k, v in getattr(w.store, "w", {}).items()], "gelRaw": gel_raw,
             "snapFiles": list(run.state.get("snap_files") or []),
+            "gelKeyBefore": (None if not (cfgp.get("t2", {}).get("hybrid") or {}).get("enabled") else
+                             (_gel_key_of_snap(rec["boot"]["gel"]) if rec["boot"] is not None else gel_pre)),
+            # (ordered wire encoding: key order survives any later canonicalisation of the observation)
+            "rawLog": [[f_, importlib.import_module("harness.props.c06").enc(d_)] for f_, d_ in raw_log],
+            "clock": _clock_of(raw_log),
             "memBefore": [_mem_view(e) for e in mem_raw_before],
             "memAfter": [_mem_view(e) for e in _mem_raw(w, len(case["eps"]))],
             "memEps": _retok(vocab, _case11(case, cfgp, []), list(rec.get("_eps_req", [])))[len(case["eps"]):], "queries": queries, "snap": snap_now,
@@ -1053,14 +1147,17 @@ def build_request(case: dict, real: dict, route: str) -> dict:
         turns.append({
             "text": t["text"], "turnId": int(t["turn_id"]), "dryRun": bool(t.get("dry")), "ctxText": "",
             "hook": hook is not None, "hookOps": (hook or {}).get("ops", []), "hookDeltas": (hook or {}).get("deltas", []),
-            "agent": t.get("agent"),
+            "agent": t.get("agent"), "clock": rt.get("clock", {}),
             "orc": {"queries": rt["queries"], "nowUs": rt["rec"].get("_nowUs", 0),
                     "merges": rt["rec"].get("merges", []), "splits": rt["rec"].get("splits", []),
                     "memEps": rt.get("memEps", [])},
         })
     # canonical records are captured AFTER the repo's identity normalisation (CI=true), which drops `now` from every
     # stream (C16_normalize_now_dropped): the expected records carry no `now`
-    echo = {"agent": case["agent"], "now": None, "nowIso": None, "owner_scope": scope_l, "snapName": real["snap"],
+    t3c = cfgp.get("t3", {}) or {}
+    echo = {"agent": case["agent"], "now": None, "nowIso": dt.datetime.fromtimestamp(0, tz=dt.timezone.utc).isoformat(),
+            "logNow": NOW, "ci": True, "policyBackend": str(t3c.get("backend", "rulebased")),
+            "dlgTopK": int(((t3c.get("dialogue") or {}).get("include_top_k_snippets", 2)) or 2), "owner_scope": scope_l, "snapName": real["snap"],
             "gelMode": str((graph.get("update") or {}).get("mode", "additive")), "gelNow": NOW,
             "policy": str((cfgp.get("scheduler") or {}).get("policy", "round_robin")),
             "degreeNorm": str((t2.get("hybrid") or {}).get("degree_norm", "none"))}
@@ -1217,7 +1314,7 @@ class _Compose(Component):
                            "hits": (t["rec"]["hits"] if t["rec"]["stage_called"] else None),
                            "t2Calls": len(t["rec"]["q"]), "t3_plan": t["t3_plan"],
                            "gelLogs": t["gelLogs"], "gel": t["gel"], "schedLogs": t["schedLogs"], "reflLogs": t["reflLogs"], "memN": t["memN"],
-                           "snap": t.get("snap"),
+                           "snap": t.get("snap"), "rawLog": t.get("rawLog"),
                            "mem": [{"text": e["text"], "vec": e["vec"]} for e in t.get("memAfter", [])]} for t in real["turns"]]}
 
     @_wrap
@@ -1238,6 +1335,22 @@ class _Compose(Component):
                 return f"turn {i}: run_turn raised {a['raised']}"
             if b.get("oracleMiss"):
                 return f"turn {i}: the model asked for an oracle of a query text the real T2 never embedded: {b.get('qText')!r}"
+            # THE LOG STREAM: every line the turn appended to every log file, in emission order, key order and value
+            # kinds included, against `Clem.Compose.emitted` (measured ms fields of the non-identity streams are oracles)
+            if a.get("rawLog") is not None:
+                c06 = importlib.import_module("harness.props.c06")
+                real_em = [[f, r_] for f, r_ in a["rawLog"]]
+                if real_em != b.get("emitted"):
+                    fa, fb = [x[0] for x in real_em], [x[0] for x in (b.get("emitted") or [])]
+                    if fa != fb:
+                        return f"turn {i}: log stream: files written in order {fa}, model {fb}"
+                    for (f, ra), (_, rb) in zip(real_em, b["emitted"]):
+                        if ra != rb:
+                            da, db = c06.dec(ra), c06.dec(rb)
+                            if list(da.keys()) != list(db.keys()):
+                                return f"turn {i}: log stream: {f} keys {list(da.keys())}, model {list(db.keys())}"
+                            return f"turn {i}: log stream: {f}: " + first_diff(_canon(da), _canon(db))
+            b = dict(b, logs=_logs_of_emitted(b.get("emitted") or []))
             ops_a = a["ops"] if a["ops"] is not None else []
             mine = {"logs": _canon(a["logs"]), "line": a["line"], "ops": ops_a,
                     "approved": a["approved"], "rejected": a["rejected"], "storeCalls": a["storeCalls"],
@@ -1262,7 +1375,7 @@ class _Compose(Component):
             theirs["mem"] = [{"text": e["text"], "vec": e["vec"]} for e in b.get("mem", [])]
             mine["schedLogs"] = _canon(a["schedLogs"])
             theirs["schedLogs"] = b["logs"].get("scheduler", [])
-            theirs["logs"] = {k: v for k, v in b["logs"].items() if k not in ("gel", "scheduler", "t3_reflection")}
+            theirs["logs"] = {s_: b["logs"].get(s_, []) for s_ in STREAMS}
             c18 = _c18()
             mine["gel"] = c18.canon_state(a["gel"])
             theirs["gel"] = c18.canon_state(b.get("gel"))
@@ -1315,6 +1428,14 @@ class _Compose(Component):
                 r = dict(base)
                 r.update({"which": "snap.fields", "turn": i, "obs": ob})
                 out.append(("snap.fields", r))
+            if rt.get("rawLog") is not None:
+                for m in ("log.normalized", "log.rollup", "log.order", "log.t3"):
+                    r = dict(base)
+                    r.update({"which": m, "turn": i, "obs": dict(ob, rawLog=rt["rawLog"],
+                                                                 kindsFinal=[o_["kind"] for o_ in (rt["rec"]["ops"] or [])],
+                                                                 kinds0=[o_["kind"] for o_ in (rt["rec"]["ops0"] or [])] +
+                                                                        [o_["kind"] for o_ in ((t.get("hook") or {}).get("ops") or [])])})
+                    out.append((m, r))
             bt = rt["rec"].get("boot")
             if bt is not None and not isinstance(bt.get("body"), dict):
                 g = bt.get("gel") or {}
@@ -1480,7 +1601,10 @@ class _Compose(Component):
                 okr = (l2.get("hybrid") or {}) == hc0["info"] and bool(l2.get("hybrid_used")) == hc0["used"]
                 res.append(("records.hybrid", okr, f"turn {i}: t2 record hybrid={l2.get('hybrid')} hybrid_used={l2.get('hybrid_used')}; reranker reported {hc0['info']} used={hc0['used']}"))
             if rec["stage_called"]:
-                res.append(("hybrid.called", (len(rec["hyb_calls"]) >= 1) == hyb_on, f"turn {i}: {len(rec['hyb_calls'])} rerank calls, hybrid.enabled={hyb_on}"))
+                # (a T2 stage-cache hit returns before the rerank layer: with that cache on only "never without hybrid")
+                t2c_on = bool((real["cfg_plain"].get("t2", {}).get("cache") or {}).get("enabled", True))
+                okc = ((len(rec["hyb_calls"]) >= 1) == hyb_on) if not t2c_on else (hyb_on or not rec["hyb_calls"])
+                res.append(("hybrid.called", okc, f"turn {i}: {len(rec['hyb_calls'])} rerank calls, hybrid.enabled={hyb_on}, t2.cache={t2c_on}"))
         if case.get("refl_flag") is not None:
             topk = int((real["cfg_plain"].get("t3", {}).get("reflection") or {}).get("topk_snippets", 3))
             prevn = 0
@@ -1570,7 +1694,10 @@ class _Compose(Component):
                 # C05 on the orchestrator's T2 cache, on the real records: a hit only for a (version, text) it was
                 # filled with earlier in this history and not invalidated since; size and invalidation counts add up
                 r2 = a["logs"]["t2"][0]
-                key = (str(rt["verBefore"]), str(t["text"]))
+                # (fix C05_turn_key_context: the key also digests the agent, the ids T1 touched, the memory index version
+                #  and — hybrid on — the GEL edges; ctx.now / cfg / graph etags are constant in a history)
+                key = (str(rt["verBefore"]), str(t["text"]), _agent_of(case, t), tuple(sorted(rt["rec"]["deltaIds"])),
+                       len(rt.get("memBefore") or []), rt.get("gelKeyBefore"))
                 hit = bool(r2.get("cache_hit"))
                 res.append(("cache.hit_justified", hit == (key in seen_keys),
                             f"turn {i}: cache_hit={hit} for key {key}, cache holds {seen_keys}"))
